@@ -607,6 +607,38 @@ func TestMutationDuringIteration(t *testing.T) {
 	evid.Exhaustive("write to a later position during for-in: via x offset x operator; rows", n)
 }
 
+// TestSharedSubvalues: a finite value in which one collection is reachable along two paths is an ordinary value:
+// copied into the point it is the JSON text of the whole value, it compares, measures and iterates like any other.
+func TestSharedSubvalues(t *testing.T) {
+	uses := []struct {
+		name string
+		mk   func() []*gen.Node
+	}{
+		{"add_key", func() []*gen.Node { return []*gen.Node{gen.NCall("add_key", id("snap"), id("v"))} }},
+		{"add_key-then-write", func() []*gen.Node {
+			return []*gen.Node{gen.NCall("add_key", id("snap"), id("v")), gen.NCall("add_key", id("snap2"), id("leaf"))}
+		}},
+		{"probe", func() []*gen.Node {
+			return []*gen.Node{gen.NCall("probe", gen.NStr("v"), id("v"), gen.NCall("len", id("v")))}
+		}},
+		{"equal", func() []*gen.Node {
+			return []*gen.Node{gen.NSet("w", id("v")), gen.NCall("probe", gen.NStr("eq"), gen.NBin("==", id("v"), id("w")), gen.NBin("in", id("leaf"), id("v")))}
+		}},
+		{"for-in", func() []*gen.Node {
+			return []*gen.Node{gen.NForIn("e", id("v"), []*gen.Node{gen.NCall("add_key", id("last"), id("e"))})}
+		}},
+	}
+	n := 0
+	for _, sv := range sgen.SharedValuePrograms() {
+		for _, u := range uses {
+			prog := append(sv.Make(), u.mk()...)
+			judge(t, "shared-subvalue", sem.NewCase(gen.FixAll(prog)), "shared/"+sv.Name+"/"+u.name, true, "shared-subvalue")
+			n++
+		}
+	}
+	evid.Exhaustive("leaf kind x shape with one collection on two paths x use", n)
+}
+
 // TestCollectionsOutliveTheirBlock: a list or map created under a block-local name and stored into an outer
 // container (or assigned to an outer variable, or aliasing an outer list) stays what it is after the block has
 // ended, whatever collections are created afterwards.
